@@ -234,9 +234,16 @@ def go_right_continues(crate, R=3):
         if isinstance(b, Obj) and ("g", "len") in b.fields:
             return [(b.fields[("g", "len")], None)]
         return S.h_vec_len(ex_, st_, frame, t, nf, args, dty)
+    def h_keycmp(ex_, st_, frame, t, nf, args, dty):
+        # one comparison per decoded record: "is this record's key the key of the run?"  (eq / ne are the same question)
+        i = len([e for e in st_.events if e[0] == "keycmp"])
+        same = z3.Bool("same_key_%d" % i)
+        st_.events.append(("keycmp", nf, same, None))
+        return [(Sym(same if nf.endswith("::eq") else z3.Not(same), "bool"), None)]
     extra = [(r"^<\[u8\] as (std::ops::)?Index<(std::ops::)?Range<usize>>>::index$", h_u8_index), (r"^bincode::deserialize$", h_deser),
+             (r"^<\[u8\] as PartialEq>::(eq|ne)$", h_keycmp),
              (r"^core::slice::(<impl[^>]*>::)?len$", h_slice_len)] + BYTES_SUMMARIES
-    ex = P.mk_executor(crate, cap=R + 3, loop_bound=R + 3, inline=[], extra_summaries=extra, havoc=[r"^<\[u8\] as PartialEq>::eq$"])
+    ex = P.mk_executor(crate, cap=R + 3, loop_bound=R + 3, inline=[], extra_summaries=extra)
     st = State()
     me = Obj("bptree::core::BPTreeFileIndex<K>")
     hdr = Obj("blob::index::header::IndexHeader")
@@ -275,6 +282,25 @@ def go_right_continues(crate, R=3):
             pos = pos + BV64(RHS)
         if cs and not P.prove(ex, res, o, z3.And(cs), "buffer records are decoded consecutively after the hit"):
             return False
+        cmps = [e[2] for e in o.events if e[0] == "keycmp"]
+        ok_dec = [e[3] for e in dec]
+        if len(cmps) > len(dec):
+            res.status = "violated"; res.detail = "more key comparisons than decoded records"; return False
+        # the run continues exactly while the decoded record has the run's key
+        for j in range(len(cmps) - 1):
+            if not P.prove(ex, res, o, cmps[j], "the scan goes on only past records of the same key"):
+                return False
+        hv = o.mem[hc]
+        if isok is not None and isinstance(hv, VecV):
+            same_all = z3.And(cmps) if cmps else z3.BoolVal(True)
+            npush = sum([z3.If(c, BV64(1), BV64(0)) for c in cmps], BV64(0)) if cmps else BV64(0)
+            if not P.prove(ex, res, o, z3.Implies(isok, hv.len.t == BV64(1) + npush), "every decoded record of the run's key is collected, the first other key is not"):
+                return False
+            if cont and not P.prove(ex, res, o, same_all, "the file continuation is entered only if the whole buffer tail belongs to the run"):
+                return False
+            if not cont and cmps:
+                if not P.prove(ex, res, o, z3.Implies(isok, z3.Not(cmps[-1])), "the scan ends inside the buffer only at a record of another key"):
+                    return False
         if cont:
             arg = cont[0][2][2] if len(cont[0][2]) > 2 else None
             if not isinstance(arg, Sym):
@@ -458,7 +484,7 @@ def leaf_search(crate, M=4):
                               "run starts at the beginning of the buffer", "hit is already the first version"])
 
 
-def validate_rejects_short_index(crate):
+def validate_rejects_short_index(crate, wide=False):
     """C06/C03: BPTreeFileIndex::validate accepts an index file only if the file holds everything its header and tree
     meta describe: size >= leaves_offset + records_count * record_header_size (the record headers are the last section
     of the file).  An index whose tail is missing (power loss after the header rewrite, before the sync) is rejected and
@@ -485,13 +511,18 @@ def validate_rejects_short_index(crate):
     tm.fields[(None, crate.field_index("TreeMeta", "leaves_offset"))] = Sym(leaves, "u64")
     tm.fields[(None, crate.field_index("TreeMeta", "tree_offset"))] = Sym(z3.BitVec("tm_tree_offset", 64), "u64")
     idx.fields[(None, crate.field_index("BPTreeFileIndex", "metadata"))] = tm
-    st.pc.append(z3.And(z3.ULT(hv["records_count"], BV64(1 << 40)), z3.ULT(hv["record_header_size"], BV64(1 << 20)), z3.ULT(leaves, BV64(1 << 60))))
+    if not wide:
+        st.pc.append(z3.And(z3.ULT(hv["records_count"], BV64(1 << 40)), z3.ULT(hv["record_header_size"], BV64(1 << 20)), z3.ULT(leaves, BV64(1 << 60))))
     blob_size = z3.BitVec("blob_size_arg", 64)
     ic = st.new_cell(idx)
     ex.push_frame(st, fn, [Ref(ic, (), False, "&BPTreeFileIndex<K>"), Sym(blob_size, "u64")], None, None)
     outs = ex.run(st)
     res.paths = len(outs)
     need = leaves + hv["records_count"] * hv["record_header_size"]
+    if wide:
+        # no bound on the header values: the expected length is computed in 192 bits (a corrupted header may hold anything)
+        W = 192
+        need_w = z3.ZeroExt(W - 64, leaves) + z3.ZeroExt(W - 64, hv["records_count"]) * z3.ZeroExt(W - 64, hv["record_header_size"])
     for o in outs:
         if o.status in ("infeasible", "unwind"):
             continue
@@ -503,10 +534,21 @@ def validate_rejects_short_index(crate):
         if not P.prove(ex, res, o, z3.Implies(isok, z3.And(z3.Extract(0, 0, hv["version"]) == 1, hv["blob_size"] == blob_size)),
                        "Ok => written bit set and the header describes exactly this blob length"):
             break
+        if wide:
+            if not P.prove(ex, res, o, z3.Implies(isok, z3.UGE(z3.ZeroExt(W - 64, size), need_w)),
+                           "Ok => the file is at least as long as the header describes, computed without wrap-around (absurd header values are rejected)"):
+                break
+            P.cover(ex, res, o, z3.And(z3.Not(isok), z3.UGT(need_w, z3.ZeroExt(W - 64, z3.BitVecVal((1 << 64) - 1, 64))), z3.Extract(0, 0, hv["version"]) == 1, hv["blob_size"] == blob_size),
+                    "header whose described length does not fit in 64 bits is rejected")
+            continue
         if not P.prove(ex, res, o, z3.Implies(isok, z3.UGE(size, need)),
                        "Ok => the file is at least as long as header + meta + tree + records_count record headers"):
             break
         P.cover(ex, res, o, isok, "complete index accepted")
         P.cover(ex, res, o, z3.And(z3.Not(isok), z3.Extract(0, 0, hv["version"]) == 1, hv["blob_size"] == blob_size, z3.ULT(size, need),
                                    z3.UGT(size, leaves)), "short file with a valid header rejected")
-    return P.finish(ex, res, ["complete index accepted"])
+    return P.finish(ex, res, ["header whose described length does not fit in 64 bits is rejected"] if wide else ["complete index accepted"])
+
+
+def validate_rejects_absurd_index(crate):
+    return validate_rejects_short_index(crate, wide=True)
